@@ -6,7 +6,7 @@ from vf.ob import obligation, shard
 
 META = {
     "bounds": "5 mutation documents (2-4 root fields, aliases, fragments at the root, nested selections with a list), <= 4 gated nested resolvers per document "
-              "(every completion order), failure placement over {none, each gated nested field, a nullable root, a non-null root, argument coercion of a nullable root, a non-null root whose custom scalar answers null during completion}; concurrent and sequential engine configurations, mutation root type named Mutation / custom name / added by `extend schema`",
+              "(every completion order), failure placement over {none, each gated nested field, a nullable root, a non-null root, argument coercion of a nullable root, a non-null root whose custom scalar answers null during completion, a nullable root raising a duck-typed coercible exception}; concurrent and sequential engine configurations, mutation root type named Mutation / custom name / added by `extend schema`",
     "outside": "more than 4 simultaneously pending nested resolvers; subscription/query operations (C08)",
     "explanation": "Start/finish log of every resolver: the first event of root field i+1 must come after the last event of root field i's whole subtree.",
 }
@@ -36,10 +36,18 @@ async def universal(parent, args, ctx, info):
         await miniloop.gate(p)
     LOG.append(("end", p))
     if p in FAULTS:
+        if FAULTS[p] == "duck":
+            raise Quota()
         raise ValueError("boom")
     if info.field_name == "third":
         return args.get("v")
     return read(parent, info.field_name)
+
+
+class Quota(Exception):
+    """a user exception that knows how to render itself (the documented `coerce_value` protocol) without deriving from TartifletteError"""
+    def coerce_value(self, *_args, path=None, locations=None, **_kwargs):
+        return {"message": "quota exceeded", "path": path, "locations": [l.collect_value() for l in locations or []]}
 
 
 ARGFAIL = [None]
@@ -129,7 +137,7 @@ def serial(log, roots):
             samples=[{"c0": 0, "c1": 0, "c2": 0, "c3": 0, "fault": 0}, {"c0": 2, "c1": 1, "c2": 1, "c3": 0, "fault": 2}],
             symbolic=["c0..c3: completion order of the pending nested resolvers"],
             selectors=["fault: none / one of the gated nested fields / the second root field (nullable) / the non-null root / the ARGUMENTS of a nullable root field fail to coerce (argument-definition hook raising)", "shard: document, engine configuration"],
-            bounds="every completion order of <= 4 gated nested resolvers x 8 failure placements",
+            bounds="every completion order of <= 4 gated nested resolvers x 10 failure placements",
             note="serial start/finish log, nullable failing root does not stop the next, non-null failing root nulls data, response keys in document order")
 def c09_serial(c0: int, c1: int, c2: int, c3: int, fault: int) -> bool:
     """
@@ -138,7 +146,7 @@ def c09_serial(c0: int, c1: int, c2: int, c3: int, fault: int) -> bool:
     sh = shard()
     _, gates, roots = DOCS[sh["doc"]]
     q = doc_text(sh["doc"], sh["eng"])
-    fault = pick(fault, len(gates) + 4)
+    fault = pick(fault, len(gates) + 5)
     del LOG[:]; GATES.clear(); FAULTS.clear(); ARGFAIL[0] = None; TOKNULL[0] = False
     argkey = None
     if fault == len(gates) + 3:
@@ -154,8 +162,10 @@ def c09_serial(c0: int, c1: int, c2: int, c3: int, fault: int) -> bool:
         fpath = ("nnroot",)
         if "tok" in roots:
             fpath = None; TOKNULL[0] = True      # the non-null root `tok` resolves fine, its scalar answers null during completion
+    if fault == len(gates) + 4:
+        fpath = (roots[1] if roots[1] != "tok" else roots[2],)        # the nullable root again, failing with a duck-typed coercible exception
     if fpath is not None:
-        FAULTS[fpath] = True
+        FAULTS[fpath] = "duck" if fault == len(gates) + 4 else True
     cs = [c0, c1, c2, c3]
     k = [0]
 
